@@ -61,6 +61,23 @@ func buildSharedOne(v *Val) sharedObj {
 			return sharedObj{val: sb, kind: "*StringBuilder", fp: fp}
 		}
 		return sharedObj{val: *sb, kind: "StringBuilder", fp: fp}
+	case "mbval":
+		// a ManualBuffer (a Stringer) with pending unsafe text and room to spare
+		mb := new(redact.ManualBuffer)
+		mb.Grow(int(v.I))
+		mb.WriteString(string(v.S))
+		mb.SetMode(1) // safe, escaped
+		mb.WriteString(string(v.R))
+		mb.SetMode(0) // unsafe, escaped: an envelope opens with the next write
+		mb.WriteString(string(v.S))
+		fp := func() string {
+			mode, open, valid, l, c, backing := mb.VerifState()
+			return fmt.Sprintf("mode=%d open=%v valid=%d len=%d cap=%d backing=%x", mode, open, valid, l, c, hashBytes(backing))
+		}
+		if len(v.V) > 0 && v.V[0].I == 1 {
+			return sharedObj{val: mb, kind: "*ManualBuffer", fp: fp}
+		}
+		return sharedObj{val: *mb, kind: "ManualBuffer", fp: fp}
 	default: // "subbytes"
 		record := []byte(v.S)
 		lo, hi := 0, len(record)
@@ -132,6 +149,19 @@ func checkShared(where string) (viol []Violation) {
 // ---- generation ---------------------------------------------------------
 
 func (g *gen) sharedSpec() Val {
+	if g.chance(0.12) {
+		v := Val{K: "mbval", I: int64([]int{0, 8, 64, 200}[g.r.Intn(4)]), S: Str(g.lit()), R: Str(g.payload())}
+		if len(v.S) > 100 {
+			v.S = v.S[:100]
+		}
+		if len(v.R) > 100 {
+			v.R = v.R[:100]
+		}
+		if g.chance(0.3) {
+			v.V = []Val{{K: "int", I: 1}}
+		}
+		return v
+	}
 	if g.chance(0.3) {
 		v := Val{K: "sbval", I: int64([]int{0, 8, 64, 200}[g.r.Intn(4)]), S: Str(g.lit()), R: Str(g.payload())}
 		if g.chance(0.3) {
